@@ -280,6 +280,14 @@ example : getBlock 3 [.start, .block 4, .batchDone] = .res .mismatch := by decid
 example : getBlock 3 [.start, .batchDone] = .res .noBlock := by decide
 example : getBlock 3 [.start, .block 3, .block 4, .batchDone] = .res .multi := by decide
 
+/-- What was repaired (fix df05c01), on the pre-fix handler/caller rendezvous: a wrong
+    block was returned as if it were the requested one, an empty batch and a second block
+    left a handler blocked for good — the call hung even after the peer had gone. -/
+theorem prefix_defects_witness :
+    getBlockOld [.start, .block 4, .batchDone] = .res (.ok 4) ∧
+    getBlockOld [.start, .batchDone] = .hang ∧
+    getBlockOld [.start, .block 3, .block 4, .batchDone] = .hang := by decide
+
 /-! ### range requests -/
 
 theorem rfold_inert (evs : List Ev) (s : RSt) (h : s.dead = true ∨ s.ps = .idle) :
